@@ -162,7 +162,15 @@ class Spelling:
         return "".join(ch.upper() if self.rng.random() < 0.5 else ch.lower() for ch in s)
 
 
-def arg_spec(a, sp, as_types_ok=True):
+class Inexpressible(Exception):
+    """the term has no spec spelling (e.g. a literal mapping {'Path': ...} cannot be escaped)"""
+
+
+def arg_spec(a, sp, level=0):
+    """term argument -> spec value.  `level` 0 is the value of the spec key itself, 1 its
+    direct items / values: the two levels at which valida looks for `{path...: parts}`
+    mappings, and therefore the levels at which a *literal* mapping that looks like one must
+    be written with the escaped key spelling."""
     if M.is_typeref(a):
         n = a["$type"]
         opts = [n]
@@ -176,22 +184,47 @@ def arg_spec(a, sp, as_types_ok=True):
     if M.is_pathref(a):
         return path_spec(a["$path"], sp)
     if type(a) is list:
-        return [arg_spec(i, sp) for i in a]
+        return [arg_spec(i, sp, level + 1) for i in a]
     if type(a) is dict:
-        out = {}
-        for k, v in a.items():
-            out[k] = arg_spec(v, sp)
-        return escape_literal_mapping(out)
+        out = {k: arg_spec(v, sp, level + 1) for k, v in a.items()}
+        return escape_literal_mapping(out) if level <= 1 else out
     return a
 
 
+def looks_like_path_spec(d):
+    if len(d) != 1:
+        return False
+    (k,) = d
+    if type(k) is not str:
+        return False
+    toks = k.lower().split(".")
+    return toks[0] == "path" and len(toks) <= 3
+
+
 def escape_literal_mapping(d):
-    """a literal mapping argument whose keys look like path specs must be written with the
-    escaped key spelling `\\path`"""
-    if any(type(k) is str and "path" in k for k in d):
-        return {(k.replace("path", "\\path") if type(k) is str and "\\path" not in k else k): v
-                for k, v in d.items()}
-    return d
+    """a literal mapping argument that would be read as a `{path...: parts}` spec must be
+    written with the escaped key spelling `\\path`"""
+    if not looks_like_path_spec(d):
+        return d
+    (k, v), = d.items()
+    if not k.startswith("path"):
+        raise Inexpressible(k)
+    return {"\\" + k: v}
+
+
+def dtype_args_are_types(term):
+    """under the `dtype` pre-processor the spec language reads every argument as a type
+    name; leaves with other arguments there are only reachable through the Python DSL"""
+    def ok(a):
+        if M.is_typeref(a):
+            return True
+        return (term.get("fn") in ("in_", "not_in", "in") and type(a) is list
+                and all(M.is_typeref(i) for i in a))
+    if term["c"] != "leaf":
+        return all(dtype_args_are_types(term[k]) for k in ("a", "b")) if term["c"] != "null" else True
+    if term.get("pre") != "dtype":
+        return True
+    return all(ok(a) for a in term.get("args", [])) and all(ok(a) for a in term.get("kwargs", {}).values())
 
 
 def leaf_key(term, sp):
@@ -221,19 +254,19 @@ def leaf_spec(term, sp):
         return {key: None}
     if sig[0] == "single":
         a = args[0] if args else kwargs[sig[1]]
-        return {key: arg_spec(a, sp)}
+        return {key: arg_spec(a, sp, 0)}
     if sig[0] == "multi":
         names, defaults = sig[1], sig[2]
         full = dict(zip(names, args))
         full.update(kwargs)
         form = sp.pick(["list", "dict"], "kw-mapping")
         if form == "list" and list(full) == names[: len(full)]:
-            return {key: [arg_spec(full[n], sp) for n in names if n in full]}
-        return {key: {n: arg_spec(v, sp) for n, v in full.items()}}
+            return {key: [arg_spec(full[n], sp, 1) for n in names if n in full]}
+        return {key: {n: arg_spec(v, sp, 1) for n, v in full.items()}}
     if sig[0] == "varpos":
-        return {key: [arg_spec(a, sp) for a in args]}
+        return {key: [arg_spec(a, sp, 1) for a in args]}
     if sig[0] == "varkw":
-        return {key: {k: arg_spec(v, sp) for k, v in kwargs.items()}}
+        return {key: escape_literal_mapping({k: arg_spec(v, sp, 1) for k, v in kwargs.items()})}
     raise ValueError(sig)
 
 
